@@ -227,16 +227,18 @@ def harvest(ctx, rep, f_de, f_sh):
     from thefittest.optimizers import DifferentialEvolution, jDE, SHADE
     configs = [("DE", s) for s in STRATS] + [("jDE", s) for s in ("rand_1", "best_2")] + [("SHADE", None)] * ctx.pick(3, 12)
     configs = configs * ctx.pick(1, 4)
-    for kind, strat in configs:
+    forced = {len(configs) + i: ("default", True) for i in range(3)}        # init_population=None in a box with a pinned coordinate, one per class
+    configs = configs + [("DE", "rand_1"), ("jDE", "best_2"), ("SHADE", None)]
+    for ci, (kind, strat) in enumerate(configs):
         seed = ctx.rng.randrange(1 << 30)
         dim, pop = ctx.rng.randint(1, 3), ctx.rng.randint(6, 9)
-        if ctx.rng.random() < 0.5:
+        if ctx.rng.random() < 0.5 and ci not in forced:
             left, right = -1.0, 1.0
             la, ra = np.full(dim, left), np.full(dim, right)
         else:
             la = np.array([-(i + 1) / 2 for i in range(dim)])
             ra = np.array([0.25 * (i + 1) for i in range(dim)])
-            if ctx.rng.random() < 0.3:
+            if ctx.rng.random() < 0.3 or ci in forced:
                 ra[0] = la[0]   # degenerate coordinate
             left, right = la, ra
         obj = L.Objective(ctx.rng.choice(["onemax", "minx", "neg", "weighted"]))   # sum x rewards leaving the box
@@ -244,7 +246,7 @@ def harvest(ctx, rep, f_de, f_sh):
         # where the initial population comes from: a grid (above), the library's own draw (init_population=None), or the public
         # sampler float_population called by the user with the same borders — before the optimizer is built, or in between
         # building and fitting it (an unrelated call must not disturb an optimizer that already exists)
-        init_mode = ctx.rng.choice(["grid", "grid", "default", "sampler", "sampler-after-build"])
+        init_mode = ctx.rng.choice(["grid", "grid", "default", "sampler", "sampler-after-build"]) if ci not in forced else "default"
         push_up = init_mode.startswith("sampler") and ctx.rng.random() < 0.7
         if push_up:
             obj = L.Objective("onemax")
